@@ -1093,6 +1093,12 @@ class Interp:
             self.session.note_dropped(env.qualname, f"{root} call")
             return None
         fn = self.eval(e.func, env)
+        if fn is builtins.eval and len(e.args) == 1 and not e.keywords:
+            # eval of a concrete expression string: parsed and evaluated in the current scope by this interpreter
+            src = self.eval(e.args[0], env)
+            if not isinstance(src, str):
+                raise Unsupported("eval of a non constant string")
+            return self.eval(ast.parse(src, mode="eval").body, env)
         args = []
         for a in e.args:
             if isinstance(a, ast.Starred):
